@@ -234,6 +234,17 @@ def main():
                    exhaustive=True,
                    rule=f"all bipartite graphs with |U|,|V| <= {exhaustive_upto} (exhaustive) plus {nrand} random graphs up to 9x9"
                         + ("" if quick else " plus 6000 sampled 4x4 graphs") + "; distinct = distinct (graph, algorithm) with at least one edge")
+    # ---- L3: independent search (random/enumerated graphs judged by brute force; bond dimensions of operators built with the
+    #      graph algorithms against the minimum cover of every cut, many constructions in one process)
+    import search_c20
+    ev0, dn0, rule0 = run.cov["evaluations"], run.cov["distinct_nontrivial"], run.cov["rule"]
+    run.cov["evaluations"] = 0
+    run.cov["distinct_nontrivial"] = 0
+    search_c20.search(run, rng, quick)
+    run.cov["search_evaluations"] = run.cov["evaluations"]
+    run.cov["evaluations"] += ev0
+    run.cov["distinct_nontrivial"] += dn0
+    run.cov["rule"] = rule0 + " || search: " + run.cov["rule"]
     run.assumptions += ["SciPy maximum_bipartite_matching is a black box: its recorded output is validated as a matching by checkCert",
                         "CPython set.pop order in new_konig is abstracted by a list (closure result is order independent)"]
     return run.finish()
